@@ -983,7 +983,7 @@ pub fn check(tier: &str, seed: u64) -> i32 {
     let t0 = std::time::Instant::now();
     let n_runs: u64 = match tier {
         "quick" => 300_000,
-        _ => 20_000_000,
+        _ => 60_000_000,
     };
     let n_runs = std::env::var("VERIF_RUNS").ok().and_then(|v| v.parse().ok()).unwrap_or(n_runs);
     let mut stats = crate::runner::run_parallel(
